@@ -88,11 +88,23 @@ impl<T, E> Observer<T, E> for ObservableFutureObserver<T, E> {
 
   fn error(mut self, err: E) {
     send_observable_value(&mut self, Err(err));
+    // an error terminates the observable too: resolve the future with it
+    self.finish();
   }
 
   fn complete(mut self) {
-    // When the observable complete we send the last emitted value of the observer and close the channel
-    // if not value is emitted an error is sent
+    self.finish();
+  }
+
+  fn is_finished(&self) -> bool {
+    self.sender.is_closed()
+  }
+}
+
+impl<T, E> ObservableFutureObserver<T, E> {
+  // When the observable terminates we send the last recorded value of the
+  // observer and close the channel; if no value was recorded an error is sent
+  fn finish(&mut self) {
     let last_value = self
       .last_value
       .take()
@@ -102,10 +114,6 @@ impl<T, E> Observer<T, E> for ObservableFutureObserver<T, E> {
       .unbounded_send(last_value)
       .expect("failed to send observable last emitted value");
     self.sender.close_channel();
-  }
-
-  fn is_finished(&self) -> bool {
-    self.sender.is_closed()
   }
 }
 
